@@ -2,6 +2,8 @@ package checks
 
 import (
 	"bytes"
+	"os"
+	"strconv"
 	"encoding/json"
 	"fmt"
 	"sync"
@@ -70,7 +72,7 @@ func EvalSpec(c *core.Ctx, cases []*SemCase, shards int) error {
 			buf.WriteByte('\n')
 			n++
 		}
-		r, err := c.RunTLC(core.TLCOpts{Spec: "WgslRun", Files: map[string][]byte{"cases.ndjson": buf.Bytes()}, Timeout: 30 * time.Minute, HeapGB: 3})
+		r, err := c.RunTLC(core.TLCOpts{Spec: "WgslRun", Files: map[string][]byte{"cases.ndjson": buf.Bytes()}, Timeout: evalTimeout(), HeapGB: 3})
 		if err == nil && !r.OK {
 			err = fmt.Errorf("WgslRun: %s %s\n%s", r.Violated, r.Err, r.Tail(25))
 		}
@@ -111,4 +113,14 @@ func EvalSpec(c *core.Ctx, cases []*SemCase, shards int) error {
 		}
 	})
 	return firstErr
+}
+
+// evalTimeout is the time limit of one WgslRun shard (VERIF_EVAL_TIMEOUT in seconds overrides it for development).
+func evalTimeout() time.Duration {
+	if v := os.Getenv("VERIF_EVAL_TIMEOUT"); v != "" {
+		if n, err := strconv.Atoi(v); err == nil && n > 0 {
+			return time.Duration(n) * time.Second
+		}
+	}
+	return 30 * time.Minute
 }
